@@ -585,6 +585,9 @@ def split_veltkamp_max(x):
     # TODO: find s without requiring the while loop
     while s < p - 2 and numpy.isfinite(type(x)(2 ** (s + 1) + 1) * x):
         s += 1
+    # the initial estimate can be too large by one or two
+    while s > 0 and not numpy.isfinite(type(x)(2**s + 1) * x):
+        s -= 1
     return s
 
 
